@@ -31,7 +31,7 @@ UNITS = {'B': 1, 'K': 1e3, 'M': 1e6, 'G': 1e9}
 
 def budget(tier):
     if tier == 'quick':
-        return {'shards': 16, 'examples': 35, 'wall': 240}
+        return {'shards': 16, 'examples': 120, 'wall': 240}
     return {'shards': 16, 'examples': 5000, 'wall': 2400}
 
 
